@@ -77,6 +77,7 @@ package main
 //@ func createHandler$1
 //@   requires r != nil && router != nil && forall(m, server.HTTPMethod, wfRoutes(router, m))
 //@   callpre dyn(server.RouteHandler) self == chain(row(route.Middlewares), off(route.Middlewares), len(route.Middlewares), route.Handler, 0)
+//@   callpre dyn(server.RouteHandler) err == nil && route != nil && ncalls() == old(ncalls())
 //@   callpre (http.ResponseWriter).WriteHeader arg1 == 204 || (arg1 == 404 && ncalls() == old(ncalls())) || arg1 == 500
 //@   loop 1 invariant -1 <= i && i < len(route.Middlewares) + 0 && handler == chain(row(route.Middlewares), off(route.Middlewares), len(route.Middlewares), route.Handler, i + 1)
 //@   check ncalls() == old(ncalls()) || ncalls() == old(ncalls()) + 1
